@@ -333,6 +333,13 @@ func c04Extra(thorough bool) []*Scenario {
 			Requests: []SetReqOrCall{a("leafA", "1"), a("leafA2", "bad"), setReq("T1.sub/leafC=c", upd("T1", "/cont/sub/leafC", "c"))}, Faults: []FaultSpec{faultConnUp("T1")}, FaultBudget: 1},
 		{Name: "S5i Set on T1 connected; the device restarts empty twice; one step held at a store write while another controller runs", Cfg: one, Init: connectAll("T1"),
 			Requests: []SetReqOrCall{a("leafA", "1")}, Faults: []FaultSpec{faultDeviceRestart("T1"), faultConnDown("T1"), faultConnUp("T1")}, FaultBudget: 3, InterleaveBudget: 1},
+		// non-initial start state: committed offline, applied when the device shows up, re-sent after a restart
+		{Name: "S5q leaf, delete of its container, leaf again - all committed while T1 is offline (before the exploration starts); the device connects and later restarts empty", Cfg: one,
+			Prefix: []func(w *World) *Call{
+				func(w *World) *Call { return w.GoSet(bgCtx(), setReq("sub/leafC=c", upd("T1", "/cont/sub/leafC", "c")).Set) },
+				func(w *World) *Call { return w.GoSet(bgCtx(), setReq("del /cont/sub", del("T1", "/cont/sub")).Set) },
+				func(w *World) *Call { return w.GoSet(bgCtx(), setReq("sub/leafC=5", upd("T1", "/cont/sub/leafC", "5")).Set) }},
+			Faults: []FaultSpec{faultConnUp("T1"), faultDeviceRestart("T1")}, FaultBudget: 2, MapOrderDeviations: true},
 		{Name: "S6d leaves applied on T1; a delete of their container that the device refuses, then a Set; connection lost and re-established anywhere", Cfg: one,
 			Init: func(w *World) {
 				connectAll("T1")(w)
